@@ -18,6 +18,7 @@ pub const MECHANISMS: &[&str] = &[
     "macro_args",          // function-like macros: `define Mi(a) `M(i+1)(a)
     "include_angle",       // `include <f(i+1)>
     "self_top",            // the top file itself takes part in the include cycle / chain through a search dir
+    "guarded_reentry",     // a macro expands to an `include of a guarded header that uses the same macro again
 ];
 
 pub const CYCLES: u64 = 8; // cycle lengths 1..=8
@@ -84,6 +85,40 @@ fn build(mech: &str, refs: &[Option<u64>], marker: &str, rng: &mut Rng, dirs: &[
             t.push_str(&filler(rng));
             nodes.push(VNode::file("/w/top.sv", &t));
             Built { nodes, macro_levels: levels, include_levels: 0 }
+        }
+        "guarded_reentry" => {
+            // top: `define INC `include "g.svh" / `INC ; g.svh re-uses `INC under `ifndef guards.
+            // chain of depth n: n guard levels, then the leaf; cycle: the header re-enters itself unguarded
+            let is_cycle = refs.iter().all(|r| r.is_some());
+            let mut t = filler(rng);
+            t.push_str("`define INC `include \"g.svh\"\n");
+            if !is_cycle {
+                for i in 1..levels {
+                    t.push_str(&format!("`define TODO{}\n", i));
+                }
+            }
+            t.push_str("`INC\n");
+            t.push_str(&filler(rng));
+            nodes.push(VNode::file("/w/top.sv", &t));
+            let mut g = String::new();
+            if is_cycle {
+                g.push_str(&filler(rng));
+                g.push_str("`INC\n");
+            } else if levels <= 1 {
+                g.push_str(&leaf);
+            } else {
+                // a FLAT conditional (no textual nesting): each visit consumes the first pending marker and
+                // re-enters; the visit that finds none emits the leaf
+                for i in 1..levels {
+                    g.push_str(&format!("`{} TODO{}\n`undef TODO{}\n`INC\n", if i == 1 { "ifdef" } else { "elsif" }, i, i));
+                }
+                g.push_str("`else\n");
+                g.push_str(&leaf);
+                g.push_str("`endif\n");
+            }
+            let p = if dirs.is_empty() || rng.coin() { "/w/g.svh".to_string() } else { format!("{}/g.svh", rng.pick(dirs)) };
+            nodes.push(VNode::file(&p, &g));
+            Built { nodes, macro_levels: levels, include_levels: levels }
         }
         _ => {
             let refer = |i: u64, j: u64| -> String {
@@ -198,6 +233,33 @@ impl Property for C09 {
         };
         let built = build(mech, &refs, &marker, &mut rng, &dirs);
         sc.vfs = built.nodes;
+        // decoration: the same file present at several search locations (identical content), a directory listed twice
+        let mut dirs = dirs;
+        if !dirs.is_empty() && rng.chance(1, 3) {
+            let extra: Vec<VNode> = sc
+                .vfs
+                .iter()
+                .filter_map(|n| match n {
+                    VNode::File { path, bytes } if !path.ends_with("/top.sv") => {
+                        let name = path.rsplit('/').next().unwrap_or("");
+                        let d = rng.pick(&dirs).clone();
+                        let p = format!("{}/{}", d, name);
+                        if p != *path { Some(VNode::File { path: p, bytes: bytes.clone() }) } else { None }
+                    }
+                    _ => None,
+                })
+                .collect();
+            let have: Vec<String> = sc.vfs.iter().map(|n| n.path().to_string()).collect();
+            for e in extra {
+                if !have.contains(&e.path().to_string()) && !sc.vfs.iter().any(|n| n.path() == e.path()) {
+                    sc.vfs.push(e);
+                }
+            }
+            if rng.coin() {
+                let d = dirs[0].clone();
+                dirs.push(d);
+            }
+        }
         sc.knobs.stack_mib = match (rep + base) % 3 {
             0 => 2,
             1 => 8,
